@@ -426,3 +426,379 @@ Theorem model_is_source_C15_Vec64 : forall (F : SArith) fabs powf, @SrcEqVec64.m
 Proof. intros F fabs powf. exact (SrcEqVec64.model_is_source_Vec64_lemma (F:=F) fabs powf). Qed.
 Check model_is_source_C15_Vec64 : forall (F : SArith) fabs powf, @SrcEqVec64.model_is_source_Vec64 F fabs powf.
 Print Assumptions model_is_source_C15_Vec64.
+(* ---- tie of the model to the source of this run (package r2c2): gen/SrcVectorOps.v is regenerated from
+   src/vector/{mod,operations,functions}.rs (find, resize, Index, clear, swap, push, push_front, insert, pop, size, new, zeros,
+   ones) by driver/rust2coq.py on every check run; Proofs/SrcEqVectorOps.v proves each equal to its model of Model/Vector.v. *)
+From OV Require Proofs.SrcEqVectorOps.
+Theorem model_is_source_C15_VectorOps : forall A : Arith, @SrcEqVectorOps.model_is_source_VectorOps A.
+Proof. intros A. exact SrcEqVectorOps.model_is_source_VectorOps_lemma. Qed.
+Check model_is_source_C15_VectorOps : forall A : Arith, @SrcEqVectorOps.model_is_source_VectorOps A.
+Print Assumptions model_is_source_C15_VectorOps.
+(* ---- tie of the model to the source of this run (package r2c2): gen/SrcWrapVector.v is regenerated on every check run from
+   src/vector/{arithmetic,mod}.rs: the consuming forms of + and - (they delegate to the by-reference forms), empty, create, Clone;
+   Proofs/SrcEqWrapVector.v proves each regenerated function equal to its hand-written model. *)
+From OV Require Proofs.SrcEqWrapVector.
+Theorem model_is_source_C15_WrapVector : forall A : Arith, @SrcEqWrapVector.model_is_source_WrapVector A.
+Proof. intros A. exact SrcEqWrapVector.model_is_source_WrapVector_lemma. Qed.
+Check model_is_source_C15_WrapVector : forall A : Arith, @SrcEqWrapVector.model_is_source_WrapVector A.
+Print Assumptions model_is_source_C15_WrapVector.
+(* ---- gen/SrcVecCmplx.v: src/vector/vec_cmplx.rs (conj, real, norm_inf of Vector<Complex<T>>) regenerated on every check
+   run (+ Tridiagonal::<Complex<T>>::conj of src/tridiagonal.rs); Proofs/SrcEqVecCmplx.v proves conj / real equal to vconj / vreal of Model/Vector.v and norm_inf equal to the loop
+   formulation Newton.norm_inf (NCplx F) that the Newton model calls. *)
+From OV Require Proofs.SrcEqVecCmplx.
+Theorem model_is_source_C15_VecCmplx : forall F : SArith, @SrcEqVecCmplx.model_is_source_VecCmplx F.
+Proof. intros F. exact SrcEqVecCmplx.model_is_source_VecCmplx_lemma. Qed.
+Check model_is_source_C15_VecCmplx : forall F : SArith, @SrcEqVecCmplx.model_is_source_VecCmplx F.
+Print Assumptions model_is_source_C15_VecCmplx.
+(* ======================================================================================================
+   C15 (vectors), rounding half -- package round.  Append to Props/C15.v.
+   The dot product "to rounding accuracy": backward and forward error of Model/Vector.v [dot]
+   (a) in the STANDARD MODEL of floating-point arithmetic (Base/RoundModel.v: the same Gallina [dot] at the
+       arithmetic ARm whose operations are the exact ones times (1+d), |d| <= u), for EVERY length n with n u < 1;
+   (b) for the PRIMITIVE-FLOAT instance itself ([dot] at AF, IEEE binary64), through Flocq: whenever the computed
+       result is finite and no product underflows.
+   Unproved remainder: (a) assumes the standard model (discharged for round-to-nearest-even with unbounded exponent in
+   Proofs/RoundFlx.v, and for binary64 on the no-underflow domain in Proofs/RoundDotFloat.v); (b) says nothing when a
+   product falls into the subnormal range (the absolute-error term of gradual underflow is not analysed) or when the
+   result overflows.
+   ====================================================================================================== *)
+From Coq Require Import Reals Floats Lra Lia.
+From OV Require Import Base.RoundModel Proofs.RoundDot Proofs.RoundFlx Proofs.ComplexRound Proofs.RoundDotFloat Inst.FloatInst.
+
+(* Higham (3.4): fl(x.y) = Sum_i x_i y_i (1 + th_i), |th_i| <= gam n = n u / (1 - n u) *)
+Theorem dot_backward_error : forall (u : R), (0 <= u < 1)%R ->
+  forall (fadd fsub fmul fdiv : R -> R -> R),
+  (forall x y : R, exists d : R, (Rabs d <= u)%R /\ fadd x y = ((x + y) * (1 + d))%R) ->
+  (forall x y : R, exists d : R, (Rabs d <= u)%R /\ fmul x y = (x * y * (1 + d))%R) ->
+  (forall a b : R, fadd 0%R (fmul a b) = fmul a b) ->
+  forall (x y : list R) (r : R),
+  (INR (length x) * u < 1)%R -> dot (A := ARm fadd fsub fmul fdiv) x y = Ok r ->
+  exists th : nat -> R,
+    (forall k, (k < length x)%nat -> (Rabs (th k) <= gam u (length x))%R) /\
+    r = Rsum (length x) (fun k => (nth k x 0 * nth k y 0 * (1 + th k))%R).
+Proof. intros u Hu fadd fsub fmul fdiv Ha Hm H0 x y r. exact (dot_backward_error_lemma u Hu fadd fsub fmul fdiv Ha Hm H0 x y r). Qed.
+Check dot_backward_error : forall (u : R), (0 <= u < 1)%R ->
+  forall (fadd fsub fmul fdiv : R -> R -> R),
+  (forall x y : R, exists d : R, (Rabs d <= u)%R /\ fadd x y = ((x + y) * (1 + d))%R) ->
+  (forall x y : R, exists d : R, (Rabs d <= u)%R /\ fmul x y = (x * y * (1 + d))%R) ->
+  (forall a b : R, fadd 0%R (fmul a b) = fmul a b) ->
+  forall (x y : list R) (r : R),
+  (INR (length x) * u < 1)%R -> dot (A := ARm fadd fsub fmul fdiv) x y = Ok r ->
+  exists th : nat -> R,
+    (forall k, (k < length x)%nat -> (Rabs (th k) <= gam u (length x))%R) /\
+    r = Rsum (length x) (fun k => (nth k x 0 * nth k y 0 * (1 + th k))%R).
+Print Assumptions dot_backward_error.
+(* the hypotheses are met by an arithmetic that rounds every operation (53-bit round-to-nearest-even), and dot answers in it *)
+Example dot_backward_error_nonvacuous :
+  (0 <= ux < 1)%R /\
+  (forall x y : R, exists d : R, (Rabs d <= ux)%R /\ xadd x y = ((x + y) * (1 + d))%R) /\
+  (forall x y : R, exists d : R, (Rabs d <= ux)%R /\ xmul x y = (x * y * (1 + d))%R) /\
+  (forall a b : R, xadd 0%R (xmul a b) = xmul a b) /\
+  (INR (length [1%R; 2%R; 3%R]) * ux < 1)%R /\
+  (exists r, dot (A := AFlx) [1%R; 2%R; 3%R] [4%R; 5%R; 6%R] = Ok r) /\
+  xdiv 1%R 3%R <> (1 / 3)%R.
+Proof.
+  split; [exact ux_range|]. split; [exact xadd_ok|]. split; [exact xmul_ok|]. split; [exact xadd_0_mul|].
+  split; [cbn [length INR]; pose proof ux_small; lra|]. split; [eexists; reflexivity|exact xdiv_inexact].
+Qed.
+
+(* Higham (3.5): |fl(x.y) - x.y| <= gam n Sum_i |x_i| |y_i| *)
+Theorem dot_forward_error : forall (u : R), (0 <= u < 1)%R ->
+  forall (fadd fsub fmul fdiv : R -> R -> R),
+  (forall x y : R, exists d : R, (Rabs d <= u)%R /\ fadd x y = ((x + y) * (1 + d))%R) ->
+  (forall x y : R, exists d : R, (Rabs d <= u)%R /\ fmul x y = (x * y * (1 + d))%R) ->
+  (forall a b : R, fadd 0%R (fmul a b) = fmul a b) ->
+  forall (x y : list R) (r : R),
+  (INR (length x) * u < 1)%R -> dot (A := ARm fadd fsub fmul fdiv) x y = Ok r ->
+  (Rabs (r - Rsum (length x) (fun k => nth k x 0 * nth k y 0))
+     <= gam u (length x) * Rsum (length x) (fun k => Rabs (nth k x 0) * Rabs (nth k y 0)))%R.
+Proof. intros u Hu fadd fsub fmul fdiv Ha Hm H0 x y r. exact (dot_forward_error_lemma u Hu fadd fsub fmul fdiv Ha Hm H0 x y r). Qed.
+Check dot_forward_error : forall (u : R), (0 <= u < 1)%R ->
+  forall (fadd fsub fmul fdiv : R -> R -> R),
+  (forall x y : R, exists d : R, (Rabs d <= u)%R /\ fadd x y = ((x + y) * (1 + d))%R) ->
+  (forall x y : R, exists d : R, (Rabs d <= u)%R /\ fmul x y = (x * y * (1 + d))%R) ->
+  (forall a b : R, fadd 0%R (fmul a b) = fmul a b) ->
+  forall (x y : list R) (r : R),
+  (INR (length x) * u < 1)%R -> dot (A := ARm fadd fsub fmul fdiv) x y = Ok r ->
+  (Rabs (r - Rsum (length x) (fun k => nth k x 0 * nth k y 0))
+     <= gam u (length x) * Rsum (length x) (fun k => Rabs (nth k x 0) * Rabs (nth k y 0)))%R.
+Print Assumptions dot_forward_error.
+Example dot_forward_error_nonvacuous :   (* same instance as above *)
+  (0 <= ux < 1)%R /\ (INR (length [1%R; 2%R; 3%R]) * ux < 1)%R /\
+  (exists r, dot (A := AFlx) [1%R; 2%R; 3%R] [4%R; 5%R; 6%R] = Ok r).
+Proof. split; [exact ux_range|]. split; [cbn [length INR]; pose proof ux_small; lra|eexists; reflexivity]. Qed.
+
+(* without the exact first addition 0 + x_0 y_0: the same with gam (n+1) -- the pure standard model *)
+Theorem dot_backward_error_pure : forall (u : R), (0 <= u < 1)%R ->
+  forall (fadd fsub fmul fdiv : R -> R -> R),
+  (forall x y : R, exists d : R, (Rabs d <= u)%R /\ fadd x y = ((x + y) * (1 + d))%R) ->
+  (forall x y : R, exists d : R, (Rabs d <= u)%R /\ fmul x y = (x * y * (1 + d))%R) ->
+  forall (x y : list R) (r : R),
+  (INR (S (length x)) * u < 1)%R -> dot (A := ARm fadd fsub fmul fdiv) x y = Ok r ->
+  exists th : nat -> R,
+    (forall k, (k < length x)%nat -> (Rabs (th k) <= gam u (S (length x)))%R) /\
+    r = Rsum (length x) (fun k => (nth k x 0 * nth k y 0 * (1 + th k))%R).
+Proof. intros u Hu fadd fsub fmul fdiv Ha Hm x y r. exact (dot_backward_error_pure_lemma u Hu fadd fsub fmul fdiv Ha Hm x y r). Qed.
+Check dot_backward_error_pure : forall (u : R), (0 <= u < 1)%R ->
+  forall (fadd fsub fmul fdiv : R -> R -> R),
+  (forall x y : R, exists d : R, (Rabs d <= u)%R /\ fadd x y = ((x + y) * (1 + d))%R) ->
+  (forall x y : R, exists d : R, (Rabs d <= u)%R /\ fmul x y = (x * y * (1 + d))%R) ->
+  forall (x y : list R) (r : R),
+  (INR (S (length x)) * u < 1)%R -> dot (A := ARm fadd fsub fmul fdiv) x y = Ok r ->
+  exists th : nat -> R,
+    (forall k, (k < length x)%nat -> (Rabs (th k) <= gam u (S (length x)))%R) /\
+    r = Rsum (length x) (fun k => (nth k x 0 * nth k y 0 * (1 + th k))%R).
+Print Assumptions dot_backward_error_pure.
+Example dot_backward_error_pure_nonvacuous :
+  (0 <= ux < 1)%R /\ (INR (S (length [1%R; 2%R; 3%R])) * ux < 1)%R /\
+  (exists r, dot (A := AFlx) [1%R; 2%R; 3%R] [4%R; 5%R; 6%R] = Ok r).
+Proof. split; [exact ux_range|]. split; [cbn [length INR]; pose proof ux_small; lra|eexists; reflexivity]. Qed.
+
+(* the primitive-float instance (IEEE binary64, u = 2^-53): FR is the real value of a float *)
+Theorem dot_backward_error_float : forall (v w : list PrimFloat.float) (r : PrimFloat.float),
+  dot (A := AF) v w = Ok r -> ffinite r ->
+  (forall k, (k < length v)%nat -> no_underflow (FR (nth k v 0%float) * FR (nth k w 0%float))%R) ->
+  (INR (length v) * u64 < 1)%R ->
+  exists th : nat -> R,
+    (forall k, (k < length v)%nat -> (Rabs (th k) <= g64 (length v))%R) /\
+    FR r = Rsum (length v) (fun k => (FR (nth k v 0%float) * FR (nth k w 0%float) * (1 + th k))%R).
+Proof. exact dot_backward_error_float_lemma. Qed.
+Check dot_backward_error_float : forall (v w : list PrimFloat.float) (r : PrimFloat.float),
+  dot (A := AF) v w = Ok r -> ffinite r ->
+  (forall k, (k < length v)%nat -> no_underflow (FR (nth k v 0%float) * FR (nth k w 0%float))%R) ->
+  (INR (length v) * u64 < 1)%R ->
+  exists th : nat -> R,
+    (forall k, (k < length v)%nat -> (Rabs (th k) <= g64 (length v))%R) /\
+    FR r = Rsum (length v) (fun k => (FR (nth k v 0%float) * FR (nth k w 0%float) * (1 + th k))%R).
+Print Assumptions dot_backward_error_float.
+(* 0x1.999999999999ap-4 is the double nearest 0.1 and its product with 3 is inexact: the hypotheses hold on data that do round *)
+Example dot_backward_error_float_nonvacuous :
+  let v := [1.5%float; 2%float; 0x1.999999999999ap-4%float] in let w := [3%float; 4%float; 3%float] in
+  (exists r, dot (A := AF) v w = Ok r /\ ffinite r) /\
+  (forall k, (k < length v)%nat -> no_underflow (FR (nth k v 0%float) * FR (nth k w 0%float))%R) /\
+  (INR (length v) * u64 < 1)%R.
+Proof.
+  cbn zeta. split; [eexists; split; [reflexivity|apply ffinite_SF; reflexivity]|]. split.
+  - intros [|[|[|k]]] Hk; cbn [nth]; cbn in Hk; try lia.
+    + assert (Ea : FR 1.5%float = 1.5%R) by fr_eval. assert (Eb : FR 3%float = 3%R) by fr_eval.
+      rewrite Ea, Eb. apply no_underflow_ge1. rewrite Rabs_pos_eq; lra.
+    + assert (Ea : FR 2%float = 2%R) by fr_eval. assert (Eb : FR 4%float = 4%R) by fr_eval.
+      rewrite Ea, Eb. apply no_underflow_ge1. rewrite Rabs_pos_eq; lra.
+    + right. assert (Eb : FR 3%float = 3%R) by fr_eval. rewrite Eb.
+      assert (Ea : (/ 16 <= FR 0x1.999999999999ap-4%float)%R) by fr_eval.
+      apply Rle_trans with (Flocq.Core.Raux.bpow Flocq.Core.Zaux.radix2 (-4)).
+      * apply Flocq.Core.Raux.bpow_le. lia.
+      * change (Flocq.Core.Raux.bpow Flocq.Core.Zaux.radix2 (-4)) with (/ 16)%R. rewrite Rabs_pos_eq; lra.
+  - cbn [length INR]. pose proof u64_small. lra.
+Qed.
+
+Theorem dot_forward_error_float : forall (v w : list PrimFloat.float) (r : PrimFloat.float),
+  dot (A := AF) v w = Ok r -> ffinite r ->
+  (forall k, (k < length v)%nat -> no_underflow (FR (nth k v 0%float) * FR (nth k w 0%float))%R) ->
+  (INR (length v) * u64 < 1)%R ->
+  (Rabs (FR r - Rsum (length v) (fun k => FR (nth k v 0%float) * FR (nth k w 0%float)))
+     <= g64 (length v) * Rsum (length v) (fun k => Rabs (FR (nth k v 0%float)) * Rabs (FR (nth k w 0%float))))%R.
+Proof. exact dot_forward_error_float_lemma. Qed.
+Check dot_forward_error_float : forall (v w : list PrimFloat.float) (r : PrimFloat.float),
+  dot (A := AF) v w = Ok r -> ffinite r ->
+  (forall k, (k < length v)%nat -> no_underflow (FR (nth k v 0%float) * FR (nth k w 0%float))%R) ->
+  (INR (length v) * u64 < 1)%R ->
+  (Rabs (FR r - Rsum (length v) (fun k => FR (nth k v 0%float) * FR (nth k w 0%float)))
+     <= g64 (length v) * Rsum (length v) (fun k => Rabs (FR (nth k v 0%float)) * Rabs (FR (nth k w 0%float))))%R.
+Print Assumptions dot_forward_error_float.
+Example dot_forward_error_float_nonvacuous :   (* exactly representable data *)
+  let v := [1.5%float; 2%float] in let w := [3%float; 4%float] in
+  (exists r, dot (A := AF) v w = Ok r /\ ffinite r) /\ (INR (length v) * u64 < 1)%R.
+Proof.
+  cbn zeta. split; [eexists; split; [reflexivity|apply ffinite_SF; reflexivity]|].
+  cbn [length INR]. pose proof u64_small. lra.
+Qed.
+
+(* ---- norm_1 "to rounding accuracy" (standard model): relative error gam n, since all terms have one sign ---- *)
+From OV Require Import Proofs.RoundNorm.
+
+Theorem norm_1_backward_error : forall (u : R), (0 <= u < 1)%R ->
+  forall (fadd fsub fmul fdiv : R -> R -> R),
+  (forall x y : R, exists d : R, (Rabs d <= u)%R /\ fadd x y = ((x + y) * (1 + d))%R) ->
+  forall (v : list R), (INR (length v) * u < 1)%R ->
+  exists th : nat -> R,
+    (forall k, (k < length v)%nat -> (Rabs (th k) <= gam u (length v))%R) /\
+    norm_1 (A := ARm fadd fsub fmul fdiv) v = Rsum (length v) (fun k => (Rabs (nth k v 0) * (1 + th k))%R).
+Proof. intros u Hu fadd fsub fmul fdiv Ha v. exact (norm_1_backward_error_lemma u Hu fadd fsub fmul fdiv Ha v). Qed.
+Check norm_1_backward_error : forall (u : R), (0 <= u < 1)%R ->
+  forall (fadd fsub fmul fdiv : R -> R -> R),
+  (forall x y : R, exists d : R, (Rabs d <= u)%R /\ fadd x y = ((x + y) * (1 + d))%R) ->
+  forall (v : list R), (INR (length v) * u < 1)%R ->
+  exists th : nat -> R,
+    (forall k, (k < length v)%nat -> (Rabs (th k) <= gam u (length v))%R) /\
+    norm_1 (A := ARm fadd fsub fmul fdiv) v = Rsum (length v) (fun k => (Rabs (nth k v 0) * (1 + th k))%R).
+Print Assumptions norm_1_backward_error.
+Example norm_1_backward_error_nonvacuous :
+  (0 <= ux < 1)%R /\
+  (forall x y : R, exists d : R, (Rabs d <= ux)%R /\ xadd x y = ((x + y) * (1 + d))%R) /\
+  (INR (length [1%R; (-2)%R; 3%R]) * ux < 1)%R.
+Proof. split; [exact ux_range|]. split; [exact xadd_ok|cbn [length INR]; pose proof ux_small; lra]. Qed.
+
+Theorem norm_1_relative_error : forall (u : R), (0 <= u < 1)%R ->
+  forall (fadd fsub fmul fdiv : R -> R -> R),
+  (forall x y : R, exists d : R, (Rabs d <= u)%R /\ fadd x y = ((x + y) * (1 + d))%R) ->
+  forall (v : list R), (INR (length v) * u < 1)%R ->
+  (Rabs (norm_1 (A := ARm fadd fsub fmul fdiv) v - Rsum (length v) (fun k => Rabs (nth k v 0)))
+     <= gam u (length v) * Rsum (length v) (fun k => Rabs (nth k v 0)))%R.
+Proof. intros u Hu fadd fsub fmul fdiv Ha v. exact (norm_1_relative_error_lemma u Hu fadd fsub fmul fdiv Ha v). Qed.
+Check norm_1_relative_error : forall (u : R), (0 <= u < 1)%R ->
+  forall (fadd fsub fmul fdiv : R -> R -> R),
+  (forall x y : R, exists d : R, (Rabs d <= u)%R /\ fadd x y = ((x + y) * (1 + d))%R) ->
+  forall (v : list R), (INR (length v) * u < 1)%R ->
+  (Rabs (norm_1 (A := ARm fadd fsub fmul fdiv) v - Rsum (length v) (fun k => Rabs (nth k v 0)))
+     <= gam u (length v) * Rsum (length v) (fun k => Rabs (nth k v 0)))%R.
+Print Assumptions norm_1_relative_error.
+Example norm_1_relative_error_nonvacuous :
+  (0 <= ux < 1)%R /\ (INR (length [1%R; (-2)%R; 3%R]) * ux < 1)%R.
+Proof. split; [exact ux_range|cbn [length INR]; pose proof ux_small; lra]. Qed.
+
+(* ---- norm_2 "to rounding accuracy": standard model extended by a rounded square root; relative error gam (n+1) ---- *)
+From OV Require Import Proofs.RoundNorm2.
+
+Theorem norm_2_relative_error : forall (u : R), (0 <= u < 1)%R ->
+  forall (fadd fsub fmul fdiv : R -> R -> R) (fsqrt : R -> R),
+  (forall x y : R, exists d : R, (Rabs d <= u)%R /\ fadd x y = ((x + y) * (1 + d))%R) ->
+  (forall x y : R, exists d : R, (Rabs d <= u)%R /\ fmul x y = (x * y * (1 + d))%R) ->
+  (forall a b : R, fadd 0%R (fmul a b) = fmul a b) ->
+  (forall x : R, (0 <= x)%R -> exists d : R, (Rabs d <= u)%R /\ fsqrt x = (R_sqrt.sqrt x * (1 + d))%R) ->
+  forall (v : list R), (INR (length v + 1) * u < 1)%R ->
+  exists th : R, (Rabs th <= gam u (length v + 1))%R /\
+    (norm_2 (F := SARm fadd fsub fmul fdiv fsqrt) Rabs v : R)
+    = (R_sqrt.sqrt (Rsum (length v) (fun k => nth k v 0 * nth k v 0)) * (1 + th))%R.
+Proof. intros u Hu fadd fsub fmul fdiv fsqrt Ha Hm H0 Hs v. exact (norm_2_relative_error_lemma u Hu fadd fsub fmul fdiv fsqrt Ha Hm H0 Hs v). Qed.
+Check norm_2_relative_error : forall (u : R), (0 <= u < 1)%R ->
+  forall (fadd fsub fmul fdiv : R -> R -> R) (fsqrt : R -> R),
+  (forall x y : R, exists d : R, (Rabs d <= u)%R /\ fadd x y = ((x + y) * (1 + d))%R) ->
+  (forall x y : R, exists d : R, (Rabs d <= u)%R /\ fmul x y = (x * y * (1 + d))%R) ->
+  (forall a b : R, fadd 0%R (fmul a b) = fmul a b) ->
+  (forall x : R, (0 <= x)%R -> exists d : R, (Rabs d <= u)%R /\ fsqrt x = (R_sqrt.sqrt x * (1 + d))%R) ->
+  forall (v : list R), (INR (length v + 1) * u < 1)%R ->
+  exists th : R, (Rabs th <= gam u (length v + 1))%R /\
+    (norm_2 (F := SARm fadd fsub fmul fdiv fsqrt) Rabs v : R)
+    = (R_sqrt.sqrt (Rsum (length v) (fun k => nth k v 0 * nth k v 0)) * (1 + th))%R.
+Print Assumptions norm_2_relative_error.
+(* the hypotheses are met by 53-bit round-to-nearest-even after every operation, the square root included *)
+Example norm_2_relative_error_nonvacuous :
+  (0 <= ux < 1)%R /\
+  (forall x y : R, exists d : R, (Rabs d <= ux)%R /\ xadd x y = ((x + y) * (1 + d))%R) /\
+  (forall x y : R, exists d : R, (Rabs d <= ux)%R /\ xmul x y = (x * y * (1 + d))%R) /\
+  (forall a b : R, xadd 0%R (xmul a b) = xmul a b) /\
+  (forall x : R, (0 <= x)%R -> exists d : R, (Rabs d <= ux)%R /\ rndx (R_sqrt.sqrt x) = (R_sqrt.sqrt x * (1 + d))%R) /\
+  (INR (length [3%R; (-4)%R] + 1) * ux < 1)%R.
+Proof.
+  split; [exact ux_range|]. split; [exact xadd_ok|]. split; [exact xmul_ok|]. split; [exact xadd_0_mul|].
+  split; [intros x _; apply rndx_rel|cbn [length Nat.add INR]; pose proof ux_small; lra].
+Qed.
+
+(* ---- recursive summation (sum_slice / sum) "to rounding accuracy": standard model, and the primitive floats with NO side
+   condition beyond a finite result (float additions never lose relative accuracy to underflow) ---- *)
+From OV Require Import Proofs.RoundSum.
+
+Theorem sum_slice_backward_error : forall (u : R), (0 <= u < 1)%R ->
+  forall (fadd fsub fmul fdiv : R -> R -> R),
+  (forall x y : R, exists d : R, (Rabs d <= u)%R /\ fadd x y = ((x + y) * (1 + d))%R) ->
+  forall (v : list R) (s e : nat) (r : R),
+  (INR (length (slice v s e)) * u < 1)%R -> sum_slice (A := ARm fadd fsub fmul fdiv) v s e = Ok r ->
+  exists th : nat -> R,
+    (forall k, (k < length (slice v s e))%nat -> (Rabs (th k) <= gam u (length (slice v s e)))%R) /\
+    r = Rsum (length (slice v s e)) (fun k => (nth k (slice v s e) 0 * (1 + th k))%R).
+Proof. intros u Hu fadd fsub fmul fdiv Ha v s e r. exact (sum_slice_backward_error_lemma u Hu fadd fsub fmul fdiv Ha v s e r). Qed.
+Check sum_slice_backward_error : forall (u : R), (0 <= u < 1)%R ->
+  forall (fadd fsub fmul fdiv : R -> R -> R),
+  (forall x y : R, exists d : R, (Rabs d <= u)%R /\ fadd x y = ((x + y) * (1 + d))%R) ->
+  forall (v : list R) (s e : nat) (r : R),
+  (INR (length (slice v s e)) * u < 1)%R -> sum_slice (A := ARm fadd fsub fmul fdiv) v s e = Ok r ->
+  exists th : nat -> R,
+    (forall k, (k < length (slice v s e))%nat -> (Rabs (th k) <= gam u (length (slice v s e)))%R) /\
+    r = Rsum (length (slice v s e)) (fun k => (nth k (slice v s e) 0 * (1 + th k))%R).
+Print Assumptions sum_slice_backward_error.
+Example sum_slice_backward_error_nonvacuous :
+  let v := [1%R; 2%R; 3%R; 4%R] in
+  (0 <= ux < 1)%R /\
+  (forall x y : R, exists d : R, (Rabs d <= ux)%R /\ xadd x y = ((x + y) * (1 + d))%R) /\
+  (INR (length (slice v 1 2)) * ux < 1)%R /\ length (slice v 1 2) = 2%nat /\
+  exists r, sum_slice (A := AFlx) v 1 2 = Ok r.
+Proof.
+  cbn zeta. split; [exact ux_range|]. split; [exact xadd_ok|].
+  split; [cbn; pose proof ux_small; lra|]. split; [reflexivity|eexists; reflexivity].
+Qed.
+
+Theorem sum_slice_forward_error : forall (u : R), (0 <= u < 1)%R ->
+  forall (fadd fsub fmul fdiv : R -> R -> R),
+  (forall x y : R, exists d : R, (Rabs d <= u)%R /\ fadd x y = ((x + y) * (1 + d))%R) ->
+  forall (v : list R) (s e : nat) (r : R),
+  (INR (length (slice v s e)) * u < 1)%R -> sum_slice (A := ARm fadd fsub fmul fdiv) v s e = Ok r ->
+  (Rabs (r - Rsum (length (slice v s e)) (fun k => nth k (slice v s e) 0))
+     <= gam u (length (slice v s e)) * Rsum (length (slice v s e)) (fun k => Rabs (nth k (slice v s e) 0)))%R.
+Proof. intros u Hu fadd fsub fmul fdiv Ha v s e r. exact (sum_slice_forward_error_lemma u Hu fadd fsub fmul fdiv Ha v s e r). Qed.
+Check sum_slice_forward_error : forall (u : R), (0 <= u < 1)%R ->
+  forall (fadd fsub fmul fdiv : R -> R -> R),
+  (forall x y : R, exists d : R, (Rabs d <= u)%R /\ fadd x y = ((x + y) * (1 + d))%R) ->
+  forall (v : list R) (s e : nat) (r : R),
+  (INR (length (slice v s e)) * u < 1)%R -> sum_slice (A := ARm fadd fsub fmul fdiv) v s e = Ok r ->
+  (Rabs (r - Rsum (length (slice v s e)) (fun k => nth k (slice v s e) 0))
+     <= gam u (length (slice v s e)) * Rsum (length (slice v s e)) (fun k => Rabs (nth k (slice v s e) 0)))%R.
+Print Assumptions sum_slice_forward_error.
+Example sum_slice_forward_error_nonvacuous :
+  let v := [1%R; 2%R; 3%R; 4%R] in
+  (0 <= ux < 1)%R /\ (INR (length (slice v 1 2)) * ux < 1)%R /\ exists r, sum_slice (A := AFlx) v 1 2 = Ok r.
+Proof. cbn zeta. split; [exact ux_range|]. split; [cbn; pose proof ux_small; lra|eexists; reflexivity]. Qed.
+
+Theorem sum_slice_backward_error_float : forall (v : list PrimFloat.float) (s e : nat) (r : PrimFloat.float),
+  sum_slice (A := AF) v s e = Ok r -> ffinite r -> (INR (length (slice v s e)) * u64 < 1)%R ->
+  exists th : nat -> R,
+    (forall k, (k < length (slice v s e))%nat -> (Rabs (th k) <= g64 (length (slice v s e)))%R) /\
+    FR r = Rsum (length (slice v s e)) (fun k => (FR (nth k (slice v s e) 0%float) * (1 + th k))%R).
+Proof. exact sum_slice_backward_error_float_lemma. Qed.
+Check sum_slice_backward_error_float : forall (v : list PrimFloat.float) (s e : nat) (r : PrimFloat.float),
+  sum_slice (A := AF) v s e = Ok r -> ffinite r -> (INR (length (slice v s e)) * u64 < 1)%R ->
+  exists th : nat -> R,
+    (forall k, (k < length (slice v s e))%nat -> (Rabs (th k) <= g64 (length (slice v s e)))%R) /\
+    FR r = Rsum (length (slice v s e)) (fun k => (FR (nth k (slice v s e) 0%float) * (1 + th k))%R).
+Print Assumptions sum_slice_backward_error_float.
+Example sum_slice_backward_error_float_nonvacuous :   (* 0.1 + 1.5 + 3 in binary64 (0.1 as its nearest double): inexact *)
+  let v := [0x1.999999999999ap-4%float; 1.5%float; 3%float] in
+  (exists r, sum_slice (A := AF) v 0 2 = Ok r /\ ffinite r) /\ (INR (length (slice v 0 2)) * u64 < 1)%R.
+Proof.
+  cbn zeta. split; [eexists; split; [reflexivity|apply ffinite_SF; reflexivity]|].
+  cbn; pose proof u64_small; lra.
+Qed.
+
+Theorem sum_slice_forward_error_float : forall (v : list PrimFloat.float) (s e : nat) (r : PrimFloat.float),
+  sum_slice (A := AF) v s e = Ok r -> ffinite r -> (INR (length (slice v s e)) * u64 < 1)%R ->
+  (Rabs (FR r - Rsum (length (slice v s e)) (fun k => FR (nth k (slice v s e) 0%float)))
+     <= g64 (length (slice v s e)) * Rsum (length (slice v s e)) (fun k => Rabs (FR (nth k (slice v s e) 0%float))))%R.
+Proof. exact sum_slice_forward_error_float_lemma. Qed.
+Check sum_slice_forward_error_float : forall (v : list PrimFloat.float) (s e : nat) (r : PrimFloat.float),
+  sum_slice (A := AF) v s e = Ok r -> ffinite r -> (INR (length (slice v s e)) * u64 < 1)%R ->
+  (Rabs (FR r - Rsum (length (slice v s e)) (fun k => FR (nth k (slice v s e) 0%float)))
+     <= g64 (length (slice v s e)) * Rsum (length (slice v s e)) (fun k => Rabs (FR (nth k (slice v s e) 0%float))))%R.
+Print Assumptions sum_slice_forward_error_float.
+Example sum_slice_forward_error_float_nonvacuous :
+  let v := [0x1.999999999999ap-4%float; (-1.5)%float; 3%float] in
+  (exists r, sum_slice (A := AF) v 0 2 = Ok r /\ ffinite r) /\ (INR (length (slice v 0 2)) * u64 < 1)%R.
+Proof.
+  cbn zeta. split; [eexists; split; [reflexivity|apply ffinite_SF; reflexivity]|].
+  cbn; pose proof u64_small; lra.
+Qed.
+
+(* norm_1 at the primitive floats: relative error gam n whenever the computed norm is finite *)
+Theorem norm_1_relative_error_float : forall (v : list PrimFloat.float),
+  ffinite (norm_1 (A := AF) v) -> (INR (length v) * u64 < 1)%R ->
+  (Rabs (FR (norm_1 (A := AF) v) - Rsum (length v) (fun k => Rabs (FR (nth k v 0%float))))
+     <= g64 (length v) * Rsum (length v) (fun k => Rabs (FR (nth k v 0%float))))%R.
+Proof. exact norm_1_relative_error_float_lemma. Qed.
+Check norm_1_relative_error_float : forall (v : list PrimFloat.float),
+  ffinite (norm_1 (A := AF) v) -> (INR (length v) * u64 < 1)%R ->
+  (Rabs (FR (norm_1 (A := AF) v) - Rsum (length v) (fun k => Rabs (FR (nth k v 0%float))))
+     <= g64 (length v) * Rsum (length v) (fun k => Rabs (FR (nth k v 0%float))))%R.
+Print Assumptions norm_1_relative_error_float.
+Example norm_1_relative_error_float_nonvacuous :
+  let v := [0x1.999999999999ap-4%float; (-1.5)%float; 3%float] in
+  ffinite (norm_1 (A := AF) v) /\ (INR (length v) * u64 < 1)%R.
+Proof. cbn zeta. split; [apply ffinite_SF; reflexivity|cbn; pose proof u64_small; lra]. Qed.
